@@ -212,6 +212,55 @@ var witnesses = []witness{
 		e.Stop()
 		return ok, fmt.Sprintf("register err=%v", err)
 	}},
+	{"F25", []string{"C05", "C03", "C04"}, "process killed inside an append: a log ends with a partial record (found by the SIGKILL soak: allDeviceStats.dat cut at a page boundary)", func() (bool, string) {
+		// a directory with one archived week, two authorizations and a few reports, then each log in turn is
+		// given a partial trailing record, the way a write cut short by SIGKILL leaves it
+		var msgs []string
+		ok := true
+		for _, c := range []struct {
+			file string
+			tail int
+		}{{server.AllDeviceStatsHistoryFile, 4096}, {server.AllDeviceStatsHistoryFile, 70}, {"equipment-reports.dat", 17}, {"equipment-authorizations.dat", 100}} {
+			e := mustEnv("f25")
+			d := detKey(7, 1)
+			e.mustAuth(mkAuth(1, d, 1e12))
+			e.mustAuth(mkAuth(2, detKey(7, 2), 1e12))
+			glow.SetCurrentTimeslot(100)
+			for i := 0; i < 5; i++ {
+				e.S.VerifInject(MkReport(1, uint32(90+i), 500+uint64(i), d.Priv).Serialize())
+			}
+			e.S.VerifMigrateNow()
+			before := e.S.VerifSnapshot()
+			e.Stop()
+			f, err := os.OpenFile(filepath.Join(e.Dir, c.file), os.O_APPEND|os.O_WRONLY, 0644)
+			if err != nil {
+				return false, err.Error()
+			}
+			junk := make([]byte, c.tail)
+			junk[0] = 2 // "two devices follow" for the statistics log; a plausible id for the others
+			f.Write(junk)
+			f.Close()
+			size0 := fileLen(filepath.Join(e.Dir, c.file))
+			if err := e.Start(); err != nil {
+				ok = false
+				msgs = append(msgs, fmt.Sprintf("%s+%d: start failed", c.file, c.tail))
+				os.RemoveAll(e.Dir)
+				continue
+			}
+			after := e.S.VerifSnapshot()
+			e.Stop()
+			size1 := fileLen(filepath.Join(e.Dir, c.file))
+			// (the recent-report lists are rebuilt differently by a start; everything durable must be as before)
+			before.RecentReports, after.RecentReports, before.RecentAuths, after.RecentAuths = nil, nil, nil, nil
+			same := canonSnapshot(before) == canonSnapshot(after)
+			if !same || size1 != size0-int64(c.tail) {
+				ok = false
+			}
+			msgs = append(msgs, fmt.Sprintf("%s+%d: started, state kept=%v, partial record dropped=%v", c.file, c.tail, same, size1 == size0-int64(c.tail)))
+			os.RemoveAll(e.Dir)
+		}
+		return ok, strings.Join(msgs, "; ")
+	}},
 	{"F8", []string{"C11"}, "sync reply shorter than the fixed part (10 bytes)", func() (bool, string) {
 		reply := make([]byte, 12)
 		binary.LittleEndian.PutUint16(reply, 10)
